@@ -29,11 +29,21 @@ type world struct {
 	panics   bool // outcome alphabet includes panic
 	calls    []string
 	recovers int
+	raised   int // panics actually raised by user code
 	gate     func(key string) // optional scheduling hook (C06/C13)
 }
 
+var theWorld *world
+
 func newWorld(budget int, panics bool) *world {
-	return &world{outs: map[string]ref.Out{}, guards: map[string]ref.Kind{}, budget: budget, panics: panics}
+	theWorld = &world{outs: map[string]ref.Out{}, guards: map[string]ref.Kind{}, budget: budget, panics: panics}
+	return theWorld
+}
+
+func (w *world) notePanic() {
+	w.mu.Lock()
+	w.raised++
+	w.mu.Unlock()
 }
 
 // pick chooses among n alternatives for a position; 0 is the default.
@@ -252,6 +262,7 @@ func outErr(o ref.Out) (bool, error) {
 	case ref.KError:
 		return true, errBoom
 	case ref.KPanic:
+		theWorld.notePanic()
 		panic("resolver panic")
 	case ref.KNull:
 		return true, nil
@@ -446,6 +457,7 @@ func (w *world) guardDirective(ctx context.Context, obj any, next graphql.Resolv
 	case ref.KError:
 		return nil, errBoom
 	case ref.KPanic:
+		w.notePanic()
 		panic("directive panic")
 	}
 	return next(ctx)
